@@ -1,13 +1,19 @@
-import Juniper.Proofs.Watch
+import Juniper.Proofs.WatchLive
 /-!
 # C18 — Watchable / Future / Lazy / xsync.Map (property theorems)
 
 The typed-map theorems are about the wrapper functions of `Model/Watch.lean` instantiated with
-`MapCfg.gen` (the assertion form and absent-key guard of every method as regenerated from the
-source); the Watchable / Future theorems are about `wstep WCfg.gen` / `fstep WCfg.gen`, whose shape
-is tied to the classified statements of `Set`, `Value`, `Fill`, `Wait`, `WaitContext`.
+`MapCfg.gen` (the classified bodies of `Load`, `LoadAndDelete`, `LoadOrStore`, `Swap` and of the
+closure of `Range`, as regenerated from the source); the Watchable / Future theorems are about
+`wstep WCfg.gen` / `fstep FCfg.gen`, whose shape is tied to the classified statements of `Set`,
+`Value`, `Fill`, `Wait`, `WaitContext`, `NewFuture` and to the declared field types
+(`p atomic.Pointer[watchableInner[T]]`, `c chan struct{}`); `lazy_once` is about `lstep lazyOnceGen`.
 `sync.Map`, `sync.OnceValue`, `atomic.Pointer`, channels and contexts are modelled by their
 documented behaviour.
+
+Every theorem discharges its tie to the regenerated facts inside its own proof
+(`have hgen : … .gen = … .std := by decide`): when a fact changes, the property theorem itself stops
+compiling. No theorem of this file has an auto-param (`:= by decide`) hypothesis.
 -/
 namespace Juniper.Props.C18
 open Juniper.Model.Watch Juniper.Proofs.Watch
@@ -19,8 +25,14 @@ variable {K UK V UV : Type} [DecidableEq UK] [DecidableEq UV]
 (read back into the type parameters, the nil interface being the zero value) **and never panics**;
 the underlying `sync.Map` goes through exactly the states it would go through when used directly.
 For every kind of key and value type (`kk`, `vk` arbitrary: interface or not), every map state
-`m` (so: absent keys, present keys, stored nil interface values) and all arguments. -/
-theorem typedMap_refines_syncMap (kk : Kind K UK) (vk : Kind V UV) (m : SMap UK UV) (k : K) (v old new : V) :
+`m` (so: absent keys, present keys, stored nil interface values) and all arguments.
+`Range`, for EVERY callback `f` (so: one that stops at the first, at a middle, at the last entry or
+never): the typed `Range` invokes `f` on exactly the typed images of the entries that
+`sync.Map.Range` hands to a callback that answers what `f` answers on the typed image — the same
+entries, in the same order, stopping at the same position (all entries up to and including the
+first on which `f` returns false). -/
+theorem typedMap_refines_syncMap (kk : Kind K UK) (vk : Kind V UV) (m : SMap UK UV) (k : K) (v old new : V)
+    (f : K → V → Bool) :
     tLoad MapCfg.gen kk vk m k = (m, .ok (vk.ofAny (m.load (kk.toAny k)).1, (m.load (kk.toAny k)).2)) ∧
     tStore kk vk m k v = (m.store (kk.toAny k) (vk.toAny v), .ok ()) ∧
     tDelete kk m k = (m.delete (kk.toAny k), .ok ()) ∧
@@ -38,9 +50,11 @@ theorem typedMap_refines_syncMap (kk : Kind K UK) (vk : Kind V UV) (m : SMap UK 
         .ok (m.compareAndSwap (kk.toAny k) (vk.toAny old) (vk.toAny new)).2) ∧
     tCompareAndDelete kk vk m k old =
       ((m.compareAndDelete (kk.toAny k) (vk.toAny old)).1, .ok (m.compareAndDelete (kk.toAny k) (vk.toAny old)).2) ∧
-    tRange MapCfg.gen kk vk m = .ok (m.range.map (fun p => (kk.ofAny p.1, vk.ofAny p.2))) := by
-  rw [mapcfg_gen]
-  refine ⟨?_, rfl, rfl, ?_, ?_, ?_, rfl, rfl, tRangeAux_commaOk kk vk m.range⟩
+    tRange MapCfg.gen kk vk m f =
+      .ok ((m.rangeWith (fun k' v' => f (kk.ofAny k') (vk.ofAny v'))).map (fun p => (kk.ofAny p.1, vk.ofAny p.2))) := by
+  have hgen : MapCfg.gen = MapCfg.std := by decide
+  rw [hgen]
+  refine ⟨?_, rfl, rfl, ?_, ?_, ?_, rfl, rfl, tRange_std kk vk m f⟩
   · simp only [tLoad, MapCfg.std]
     rw [guarded_commaOk vk _ _ _ (load_absent m _)]
   · simp only [tLoadAndDelete, MapCfg.std]
@@ -55,7 +69,7 @@ theorem typedMap_absent_is_zero (kk : Kind K UK) (vk : Kind V UV) (m : SMap UK U
     (tLoad MapCfg.gen kk vk m k).2 = .ok (vk.zero, false) ∧
     (tLoadAndDelete MapCfg.gen kk vk m k).2 = .ok (vk.zero, false) ∧
     (tSwap MapCfg.gen kk vk m k v).2 = .ok (vk.zero, false) := by
-  have h := typedMap_refines_syncMap kk vk m k v v v
+  have h := typedMap_refines_syncMap kk vk m k v v v (fun _ _ => true)
   rw [h.1, h.2.2.2.1, h.2.2.2.2.2.1]
   simp [SMap.load, SMap.loadAndDelete, SMap.swap, habs, Kind.ofAny]
 
@@ -71,6 +85,19 @@ theorem kinds_lawful (T : Type) (zero : T) (U : Type) : (concrete T zero).Lawful
 example : tLoad MapCfg.gen (concrete Int 0) (iface Int) [(some 1, none)] 1 = ([(some 1, none)], .ok (none, true)) ∧
     (tSwap MapCfg.gen (concrete Int 0) (concrete Int 0) [] 5 7).2 = .ok (0, false) := by decide
 
+/-- non-vacuity of the `Range` conjunct: `K = int`, `V = error`, three entries (the second one a
+stored nil value), a callback that stops at the second entry: `f` is invoked on the first two
+entries and not on the third; a callback that never stops sees all three; on the empty map `f`
+is not called. -/
+example :
+    tRange MapCfg.gen (concrete Int 0) (iface Int) [(some 1, some 10), (some 2, none), (some 3, some 30)]
+      (fun k _ => decide (k < 2)) = .ok [(1, some 10), (2, none)] ∧
+    tRange MapCfg.gen (concrete Int 0) (iface Int) [(some 1, some 10), (some 2, none), (some 3, some 30)]
+      (fun _ _ => true) = .ok [(1, some 10), (2, none), (3, some 30)] ∧
+    tRange MapCfg.gen (concrete Int 0) (iface Int) [(some 1, some 10), (some 2, none), (some 3, some 30)]
+      (fun _ _ => false) = .ok [(1, some 10)] ∧
+    tRange MapCfg.gen (concrete Int 0) (iface Int) [] (fun _ _ => false) = .ok [] := by decide
+
 end TypedMap
 
 /-! ## Watchable -/
@@ -83,7 +110,8 @@ swapped (`lin` is recorded by the model at that read), and the value of `c` is t
 theorem value_is_latest_set {s : WState} {j c lin : Nat} (hr : WReach WCfg.gen s)
     (hj : s.readers[j]? = some (.done c lin)) :
     lin ≤ s.hist.length ∧ (cellAt s c).val = latest (s.hist.take lin) := by
-  rw [wcfg_gen] at hr
+  have hgen : WCfg.gen = WCfg.std := by decide
+  rw [hgen] at hr
   have hI := winv_reach hr
   obtain ⟨ce, hce, he⟩ := hI.reader j c lin hj
   obtain ⟨h1, h2, _, _⟩ := hI.cell c ce hce
@@ -105,7 +133,8 @@ theorem chan_closed_iff_later_set {s : WState} {j c lin : Nat} (hr : WReach WCfg
     (lin < s.hist.length → (cellAt s c).closed = true ∨
       ∃ (i : Nat) (v : Int), s.setters[i]? = some (v, .swapped (some c)) ∧
         ∃ s', wstep WCfg.gen s (.close i) = some s' ∧ (cellAt s' c).closed = true) := by
-  rw [wcfg_gen] at *
+  have hgen : WCfg.gen = WCfg.std := by decide
+  rw [hgen] at *
   have hI := winv_reach hr
   obtain ⟨ce, hce, he⟩ := hI.reader j c lin hj
   obtain ⟨h1, h2, h3, h4⟩ := hI.cell c ce hce
@@ -133,10 +162,17 @@ theorem chan_closed_iff_later_set {s : WState} {j c lin : Nat} (hr : WReach WCfg
         · simp [wstep, hi, WCfg.std, hcell, hcl']
         · simp [cellAt, setSetter, hlt]
 
-/-- **… so an observer loop always ends up seeing the final value**: when every `Set` call has
-returned (none is between its `Swap` and its `close`) and the observer waits on a channel that is
-not closed, the value it holds is the last value `Set`. (If the channel is closed the observer is
-not blocked: it calls `Value` again.) -/
+/-- **… so an observer loop always ends up seeing the final value** — the statement is split into
+four theorems: (1) `observer_sees_final` (this one, correctness at quiescence): when every `Set`
+call has returned (none is between its `Swap` and its `close`) and the observer waits on a channel
+that is not closed, the value it holds is the last value `Set`; (2) `observer_progress`: if the
+channel is closed the observer's next `Value` returns a strictly later cell, and the measure is
+bounded by the number of `Set` calls, so the loop `for { v, ch := w.Value(); …; <-ch }` performs at
+most (number of `Set`s) + 1 iterations; (3) `value_never_blocked`: that next `Value` can always
+complete, on its own steps alone, and then returns the latest value with an open channel;
+(4) `watchable_never_panics`: neither `Set` nor `Value` ever panics. What is NOT a theorem: a
+fairness assumption ("the observer goroutine is eventually scheduled") — with it, (1)–(4) give that
+every run of the loop ends up parked on the final value. -/
 theorem observer_sees_final {s : WState} {j c lin : Nat} (hr : WReach WCfg.gen s)
     (hj : s.readers[j]? = some (.done c lin)) (hopen : (cellAt s c).closed = false)
     (hquiet : ∀ (i : Nat) (v : Int) (old : Option Nat), s.setters[i]? ≠ some (v, .swapped old)) :
@@ -152,6 +188,80 @@ theorem observer_sees_final {s : WState} {j c lin : Nat} (hr : WReach WCfg.gen s
   subst this
   rw [hval, List.take_length]
 
+/-- non-vacuity: both `Set`s have returned; observer 0 is parked on the open channel of the final
+cell, observer 1 still holds the first cell, whose channel is closed -/
+example : ∃ s, WReach WCfg.gen s ∧ s.readers[0]? = some (.done 1 2) ∧ (cellAt s 1).closed = false ∧
+    s.setters = [(7, .done), (8, .done)] ∧ (cellAt s 1).val = some 8 ∧
+    s.readers[1]? = some (.done 0 1) ∧ (cellAt s 0).closed = true :=
+  ⟨_, .step (.load 0) (.step (.close 1) (.step (.swap 1) (.step (.load 1) (.step (.close 0) (.step (.swap 0)
+    (.init [7, 8] 2) rfl) rfl) rfl) rfl) rfl) rfl, by decide, by decide, by decide, by decide, by decide, by decide⟩
+
+/-- **Neither `Set` nor `Value` ever panics** (all interleavings, any number of concurrent `Set` and
+`Value` calls): `Set`'s `close(oldInner.c)` never hits a closed channel — a cell that has been
+swapped out has exactly one `Set` call that will close it, and it is open until that call does —
+and `Value`'s `inner.t` after the reload never dereferences nil — once the `CompareAndSwap(nil, _)`
+has failed the pointer is non-nil for good. Without this, the three theorems above would say
+nothing about a `Value` that did not return. -/
+theorem watchable_never_panics {s : WState} (hr : WReach WCfg.gen s) :
+    (∀ (i : Nat) (v : Int), s.setters[i]? ≠ some (v, .panicked)) ∧ (∀ (j : Nat), s.readers[j]? ≠ some .panicked) := by
+  have hgen : WCfg.gen = WCfg.std := by decide
+  rw [hgen] at hr
+  exact ⟨(wsafe_reach hr).set_ok, (wsafe_reach hr).val_ok⟩
+
+/-- non-vacuity: the two steps that could panic do happen — a `Value` whose CAS failed reloads, and
+two `Set`s close the channels they swapped out, out of order -/
+example : ∃ s, WReach WCfg.gen s ∧ s.readers = [.done 1 1, .done 0 0] ∧ s.setters = [(7, .done), (8, .done)] ∧
+    (s.cells.map (·.closed)) = [true, true, false] :=
+  ⟨_, .step (.close 0) (.step (.close 1) (.step (.swap 1) (.step (.reload 0) (.step (.swap 0) (.step (.cas 0) (.step (.cas 1) (.step (.load 1) (.step (.load 0)
+    (.init [7, 8] 2) rfl) rfl) rfl) rfl) rfl) rfl) rfl) rfl) rfl, by decide, by decide, by decide⟩
+
+/-- **Progress of the observer loop**: the observer holds the result `(c, lin)` of a `Value` call
+whose channel is closed; its next `Value` call `j'` has not started yet in `s`. In whatever later
+state `s'` that call has returned, it returned a cell of a strictly later epoch (`lin < lin'`);
+`lin'` is at most the number of `Set`s that have swapped, which is at most the number of `Set` calls
+of the run (`setters.length`, which no step changes). So `setters.length - lin` is a strictly
+decreasing measure of the loop `for { v, ch := w.Value(); …; <-ch }`: it performs at most
+(number of `Set` calls) + 1 iterations. -/
+theorem observer_progress {s s' : WState} {j j' c lin c' lin' : Nat} (hr : WReach WCfg.gen s)
+    (hj : s.readers[j]? = some (.done c lin)) (hclosed : (cellAt s c).closed = true)
+    (hidle : s.readers[j']? = some .idle) (hsteps : WSteps WCfg.gen s s')
+    (hj' : s'.readers[j']? = some (.done c' lin')) :
+    lin < lin' ∧ lin' ≤ s'.hist.length ∧ s'.hist.length ≤ s'.setters.length ∧ s'.setters.length = s.setters.length := by
+  have hlater := (chan_closed_iff_later_set hr hj).1 hclosed
+  have hle := (value_is_latest_set (wreach_steps hr hsteps) hj').1
+  have hgen : WCfg.gen = WCfg.std := by decide
+  rw [hgen] at hr hsteps
+  obtain ⟨_, hlen, hlin⟩ := steps_reader_lin hsteps hidle
+  have := hlin c' lin' hj'
+  exact ⟨by omega, hle, hist_le_setters (wreach_steps hr hsteps), hlen⟩
+
+/-- non-vacuity: observer call 0 returned the first cell (`lin = 1`), `Set(8)` closed its channel,
+the observer's next call 1 returns the second cell (`lin' = 2`) -/
+example : ∃ s s', WReach WCfg.gen s ∧ s.readers[0]? = some (.done 0 1) ∧ (cellAt s 0).closed = true ∧
+    s.readers[1]? = some .idle ∧ WSteps WCfg.gen s s' ∧ s'.readers[1]? = some (.done 1 2) :=
+  ⟨_, _, .step (.close 1) (.step (.swap 1) (.step (.load 0) (.step (.close 0) (.step (.swap 0) (.init [7, 8] 2) rfl) rfl) rfl) rfl) rfl,
+    by decide, by decide, by decide, .step (.load 1) (.refl _) rfl, by decide⟩
+
+/-- **`Value` is never blocked**: in every reachable state, a `Value` call that has not returned
+(not started, or after its first `Load` saw nil, or after its CAS failed) returns within at most two
+steps of its own — no other goroutine has to move — and what it then returns is the most recently
+`Set` value (`lin = ` the number of `Set`s that have swapped) together with a channel that is not
+closed. In particular, once no further `Set` happens, an observer that calls `Value` again (because
+its channel was closed) obtains the final value and parks on an open channel. -/
+theorem value_never_blocked {s : WState} {j : Nat} {pc : ValPc} (hr : WReach WCfg.gen s)
+    (hj : s.readers[j]? = some pc) (hpc : pc = .idle ∨ pc = .sawNil ∨ pc = .casFailed) :
+    ∃ (ls : List WLabel) (s' : WState) (c : Nat), ls.length ≤ 2 ∧ (∀ l ∈ ls, l.ofReader j = true) ∧
+      wrun WCfg.gen s ls = some s' ∧ s'.readers[j]? = some (.done c s.hist.length) ∧
+      (cellAt s' c).val = latest s.hist ∧ (cellAt s' c).closed = false := by
+  have hgen : WCfg.gen = WCfg.std := by decide
+  rw [hgen] at hr ⊢
+  exact value_solo hr hj hpc
+
+/-- non-vacuity: a reachable state with a call in each of the three unfinished program points
+(call 0: CAS failed; call 1: saw nil, a `Set` has swapped since; call 2: not started) -/
+example : ∃ s, WReach WCfg.gen s ∧ s.readers = [.casFailed, .sawNil, .idle] ∧ s.hist = [7] :=
+  ⟨_, .step (.cas 0) (.step (.swap 0) (.step (.load 1) (.step (.load 0) (.init [7] 3) rfl) rfl) rfl) rfl, by decide, by decide⟩
+
 /-! ## Future -/
 
 /-- **A Future delivers the single value it was filled with to all earlier and later waiters and
@@ -159,29 +269,31 @@ never changes afterwards**: in every reachable state of a run with one `Fill(v)`
 number of `Wait` / `WaitContext` calls started before, during or after it, every call that returned
 a value returned `v`; once the channel is closed the stored value is `v` (for good); and a blocked
 waiter of a filled Future can proceed. -/
-theorem future_single_value_all_waiters {v : Int} {s : FState} (hr : FReach WCfg.gen s) (hv : fvals s = [v]) :
+theorem future_single_value_all_waiters {v : Int} {s : FState} (hr : FReach FCfg.gen s) (hv : fvals s = [v]) :
     (∀ (j : Nat) (w : FWaiter) (r : Option Int), s.waiters[j]? = some w → w.pc = .done (.val r) → r = some v) ∧
     (s.closed = true → s.x = some v) ∧
     (∀ (j : Nat) (w : FWaiter), s.waiters[j]? = some w → w.pc = .blocked → s.closed = true →
-      (fstep WCfg.gen s (.recv j)).isSome) := by
-  rw [wcfg_gen] at *
+      (fstep FCfg.gen s (.recv j)).isSome) := by
+  have hgen : FCfg.gen = FCfg.std := by decide
+  rw [hgen] at *
   have hI := finv_reach hr hv
   refine ⟨hI.doneVal, hI.closed_x, ?_⟩
   intro j w hw hp hc
   simp [fstep, hw, hp, hc]
 
-example : ∃ s, FReach WCfg.gen s ∧ fvals s = [5] ∧ s.waiters[0]? = some { withCtx := false, cancelled := false, pc := .done (.val (some 5)) } :=
+example : ∃ s, FReach FCfg.gen s ∧ fvals s = [5] ∧ s.waiters[0]? = some { withCtx := false, cancelled := false, pc := .done (.val (some 5)) } :=
   ⟨_, .step (.read 0) (.step (.recv 0) (.step (.fill2 0) (.step (.fill1 0) (.step (.call 0) (.init [5] [false, true]) rfl) rfl) rfl) rfl) rfl,
     by decide, by decide⟩
 
 /-- **`WaitContext` gives up when its context ends**: a `WaitContext` call that is blocked while
 its context has ended can return the context's error at once (the step is enabled), and a call
 returns the context's error only if it is a `WaitContext` whose context has ended. -/
-theorem waitContext_gives_up {v : Int} {s : FState} (hr : FReach WCfg.gen s) (hv : fvals s = [v]) :
+theorem waitContext_gives_up {v : Int} {s : FState} (hr : FReach FCfg.gen s) (hv : fvals s = [v]) :
     (∀ (j : Nat) (w : FWaiter), s.waiters[j]? = some w → w.pc = .blocked → w.withCtx = true → w.cancelled = true →
-      fstep WCfg.gen s (.giveUp j) = some (setWaiter s j (.done .ctxErr))) ∧
+      fstep FCfg.gen s (.giveUp j) = some (setWaiter s j (.done .ctxErr))) ∧
     (∀ (j : Nat) (w : FWaiter), s.waiters[j]? = some w → w.pc = .done .ctxErr → w.withCtx = true ∧ w.cancelled = true) := by
-  rw [wcfg_gen] at *
+  have hgen : FCfg.gen = FCfg.std := by decide
+  rw [hgen] at *
   refine ⟨?_, (finv_reach hr hv).doneErr⟩
   intro j w hw hp hc hcan
   simp [fstep, hw, hp, hc, hcan]
@@ -189,12 +301,15 @@ theorem waitContext_gives_up {v : Int} {s : FState} (hr : FReach WCfg.gen s) (hv
 /-! ## Lazy -/
 
 /-- **Lazy runs its function once and gives every caller that result** (`Lazy` is
-`sync.OnceValue`, modelled by its specification; concurrent first calls included): `f` is started
-at most once, and any two calls that have returned returned the same value, the one `f` produced. -/
-theorem lazy_once {s : LState} (hr : LReach s) (_hgen : WCfg.gen.lazyOnce = true := by decide) :
+`sync.OnceValue` — `lazyOnceGen`, regenerated from the body of `Lazy`; `sync.OnceValue` is modelled
+by its specification; concurrent first calls included): `f` is started at most once, and any two
+calls that have returned returned the same value, the one `f` produced. -/
+theorem lazy_once {s : LState} (hr : LReach lazyOnceGen s) :
     s.runs ≤ 1 ∧
     ∀ (j k : Nat) (r r' : Int), s.callers[j]? = some (.done r) → s.callers[k]? = some (.done r') →
       r = r' ∧ s.once = .done r ∧ s.runs = 1 := by
+  have hgen : lazyOnceGen = true := by decide
+  rw [hgen] at hr
   have hI := linv_reach hr
   constructor
   · cases ho : s.once with
@@ -212,7 +327,7 @@ theorem lazy_once {s : LState} (hr : LReach s) (_hgen : WCfg.gen.lazyOnce = true
       subst e1; subst e2
       exact ⟨rfl, rfl, h1⟩
 
-example : ∃ s, LReach s ∧ s.callers = [.done 4, .done 4, .done 4] ∧ s.runs = 1 :=
+example : ∃ s, LReach lazyOnceGen s ∧ s.callers = [.done 4, .done 4, .done 4] ∧ s.runs = 1 :=
   ⟨_, .step (.wake 1) (.step (.enter 2) (.step (.finish 0 4) (.step (.enter 1) (.step (.enter 0) (.init 3) rfl) rfl) rfl) rfl) rfl,
     by decide, by decide⟩
 
